@@ -1011,7 +1011,13 @@ class ChannelFactory:
         if item is not None:
             callback, endmarker, _strconfig = item
             if endmarker is not NO_ENDMARKER_WANTED:
-                callback(endmarker)
+                try:
+                    callback(endmarker)
+                except Exception as exc:
+                    # a failing endmarker callback must not end the receiver
+                    # thread and with it every other channel of the gateway
+                    self.gateway._trace("exception during endmarker callback: %s" % exc)
+                    RemoteError(self.gateway._geterrortext(exc)).warn()
 
     def _local_close(self, id: int, remoteerror=None, sendonly: bool = False) -> None:
         channel = self._channels.get(id)
